@@ -260,9 +260,8 @@ theorem Inv_resume (self : Path) : Inv self (resume self) := by
   simp [Ev.isStage, Ev.curOk, hs]
 
 /-- `invoke_exception_view`: the extra frame it pushes is the request itself and is popped on every path -/
-theorem Inv_invokeExcView (xv : Bool) (cfg : Cfg) (self : Path) (e : Exc) :
-    Inv self (invokeExcView xv cfg self e) := by
-  refine ⟨fun s hs => ?_⟩
+theorem invokeExcView_step (xv : Bool) (cfg : Cfg) (self : Path) (e : Exc) (s : St) :
+    ∃ evs, Step s (invokeExcView xv cfg self e s).st evs := by
   simp only [invokeExcView, bind_def, M.bind, push, tryFinally, pop]
   cases xv with
   | false =>
@@ -285,6 +284,56 @@ theorem Inv_invokeExcView (xv : Bool) (cfg : Cfg) (self : Path) (e : Exc) :
       simp only [R.st]
       exact ⟨by simp [hin.stack], hin.log, hin.respQ, hin.finQ, hin.good⟩
 
+theorem Inv_invokeExcView (xv : Bool) (cfg : Cfg) (self : Path) (e : Exc) :
+    Inv self (invokeExcView xv cfg self e) :=
+  ⟨fun s _ => invokeExcView_step xv cfg self e s⟩
+
+/-- the explicit invocation for another request leaves the caller's stack and deques alone and logs, in the caller's
+own log, only the marker and the resumption (with the caller current again) -/
+theorem Inv_invokeOther (xv : Bool) (t : Kind × Option Kind × Bool) (self : Path) : Inv self (invokeOther xv t self) := by
+  refine ⟨fun s hs => ?_⟩
+  obtain ⟨evs, hst⟩ := invokeExcView_step (if t.2.2 then !xv else xv) (otherCfg t.2.1) (self ++ [otherId]) (excOf t.1)
+    { stack := s.stack }
+  have hstack := hst.stack
+  simp only at hstack
+  refine ⟨[Ev.sub otherId, Ev.resume (s.stack.head? == some self) s.stack.length], ?_⟩
+  have key : ∀ (r : R Bool), r.st.stack = s.stack →
+      Step s (match (match r with
+                      | .ok true _ => Outcome.resp
+                      | .ok false _ => Outcome.raised .http
+                      | .err e _ => Outcome.raised e) with
+              | .resp => (R.ok () { s with
+                  log := s.log ++ [Ev.sub otherId, Ev.resume (r.st.stack.head? == some self) r.st.stack.length],
+                  stack := r.st.stack,
+                  kids := s.kids ++ [Tr.node r.st.log (match r with
+                      | .ok true _ => Outcome.resp
+                      | .ok false _ => Outcome.raised .http
+                      | .err e _ => Outcome.raised e) r.st.stack.length []] } : R Unit)
+              | .raised e => R.err e { s with
+                  log := s.log ++ [Ev.sub otherId, Ev.resume (r.st.stack.head? == some self) r.st.stack.length],
+                  stack := r.st.stack,
+                  kids := s.kids ++ [Tr.node r.st.log (match r with
+                      | .ok true _ => Outcome.resp
+                      | .ok false _ => Outcome.raised .http
+                      | .err e _ => Outcome.raised e) r.st.stack.length []] }).st
+        [Ev.sub otherId, Ev.resume (s.stack.head? == some self) s.stack.length] := by
+    intro r hr
+    have hgood : ∀ e ∈ [Ev.sub otherId, Ev.resume (s.stack.head? == some self) s.stack.length],
+        e.isStage = true ∧ e.curOk = true := by
+      intro e he
+      simp at he
+      rcases he with h | h <;> subst h <;> simp [Ev.isStage, Ev.curOk, hs]
+    cases r with
+    | ok b s' =>
+      simp only [R.st] at hr
+      cases b <;> simp only [R.st, hr] <;>
+        exact ⟨rfl, rfl, by simp [regsOf, regId], by simp [regsOf, regId], hgood⟩
+    | err e s' =>
+      simp only [R.st] at hr
+      simp only [R.st, hr]
+      exact ⟨rfl, rfl, by simp [regsOf, regId], by simp [regsOf, regId], hgood⟩
+  exact key _ hstack
+
 /-! ### the chain, given that the subrequests are a `Step` -/
 
 /-- structural proof search over the combinators; facts about sub-computations are taken from the context -/
@@ -294,6 +343,7 @@ macro "inv_auto" : tactic => `(tactic| repeat (first
   | exact Inv_throw _ _
   | exact Inv_resume _
   | exact Inv_invokeExcView _ _ _ _
+  | exact Inv_invokeOther _ _ _
   | (apply Inv_hook; decide)
   | (apply Inv_hook; split <;> decide)
   | apply Inv_tryFinally
